@@ -14,7 +14,9 @@ ObsBound(o, b) == IF b >= INF THEN o.k = "inf" /\ o.n = 1 ELSE IF b <= -INF THEN
 ProjBad(p, c, tag) ==
   LET x == Canon(c) IN
   IF Len(p.rw) # c.R \/ \E r \in 1..c.R : ~ObsEq(p.rw[r], x.rw[r]) THEN tag \o "realization_weights_not_normalized"
-  ELSE IF Len(p.ow) # Len(x.ow) \/ \E o \in 1..Len(x.ow) : ~ObsEq(p.ow[o], x.ow[o]) THEN tag \o "objective_weights_not_normalized"
+  \* (the canonical "near" weights have a denominator beyond the projection: their sum is judged instead)
+  ELSE IF c.owp = "near" /\ ~(Len(p.ow) = 2 /\ ObsEqInt(p.owsum, 1)) THEN tag \o "objective_weights_not_normalized"
+  ELSE IF c.owp # "near" /\ (Len(p.ow) # Len(x.ow) \/ \E o \in 1..Len(x.ow) : ~ObsEq(p.ow[o], x.ow[o])) THEN tag \o "objective_weights_not_normalized"
   ELSE IF p.rms # x.rms THEN tag \o "realization_min_success_not_clamped"
   ELSE IF p.pms # x.pms THEN tag \o "perturbation_min_success_not_clamped"
   ELSE IF Len(p.lb) # c.V \/ Len(p.ub) # c.V THEN tag \o "bounds_not_broadcast"
